@@ -17,12 +17,15 @@ def programs(ctx):
                     if ctx.quick and rng.random() < 0.55:
                         continue
                     generic = (not rhs_other) and (i % 5 == 0)
-                    out.append(fam2.c09_prog("p_%04d" % i, op, bl, br, rhs_other, req, generic=generic))
+                    out.append(fam2.c09_prog("p_%04d" % i, op, bl, br, rhs_other, req, generic=generic, bound_in_where=(i % 10 == 0)))
                     i += 1
         for br in (False, True):
             for rhs_other in (False, True):
                 out.append(fam2.c09_prog("p_%04d" % i, op, False, br, rhs_other, ("bin",), base_assign=True))
                 i += 1
+            # generic OpAssign base whose bounds live in the where-clause (generics + where-clause must carry over to the derived Op)
+            out.append(fam2.c09_prog("p_%04d" % i, op, False, br, False, ("bin",), base_assign=True, generic=True, bound_in_where=True))
+            i += 1
     # `Self` nested inside path types (Output = Option<Self>, where Option<Self>: ..): must carry over to the derived forms
     for op in (ops[:2] if ctx.quick else ops):
         for br in (False, True):
